@@ -708,12 +708,18 @@ func runIn(cfg hx.Config, dir string, v ver, old []byte, oldExists bool) outcome
 	hx.Module(dir)
 	os.WriteFile(filepath.Join(dir, "a.go"), []byte(v.src), 0o644)
 	gen := filepath.Join(dir, "derived.gen.go")
-	if oldExists {
-		os.WriteFile(gen, old, 0o644)
-	} else {
-		os.Remove(gen)
+	var g hx.RunResult
+	for attempt := 0; attempt < 3; attempt++ {
+		if oldExists {
+			os.WriteFile(gen, old, 0o644)
+		} else {
+			os.Remove(gen)
+		}
+		g = hx.Goderive(cfg.Goderive, dir, ".")
+		if !g.TimedOut {
+			break // a 30 s timeout of a 10 ms run is the machine's load, not goderive: try again
+		}
 	}
-	g := hx.Goderive(cfg.Goderive, dir, ".")
 	b, err := os.ReadFile(gen)
 	return outcome{exit: g.Exit, exists: err == nil, bytes: b, log: g.Out}
 }
@@ -790,8 +796,12 @@ type crashJob struct {
 func offsets(n int, tier string, sparse int) []int {
 	var ks []int
 	for k := 0; k <= n; k++ {
-		if sparse > 0 && tier != "thorough" {
-			if k%sparse == 0 || k == n-1 {
+		if sparse > 0 { // slow package (its derived.gen.go imports the standard library): thinner grid
+			step := sparse
+			if tier == "thorough" {
+				step = 3
+			}
+			if k%step == 0 || k == n-1 {
 				ks = append(ks, k)
 			}
 			continue
@@ -810,7 +820,7 @@ func Run(cfg hx.Config) (*hx.Meta, error) {
 
 	nh, steps := 12, 3
 	if cfg.Tier == "thorough" {
-		nh, steps = 48, 5
+		nh, steps = 36, 4
 	}
 	type hist struct {
 		name string
